@@ -319,7 +319,7 @@ def profile_C05(g, tier):
                                "cluster1.net6 cluster1.net7", "net1 cluster1.net6 cluster1.net7", "net3 net5 net1"],
                          modes=("lazy", "lazy", "lazy", "eager"), generated_p=0.35, tier=tier)
     fam = scen["families"]
-    kind = g.pick("kind", ["plain", "plain", "fail", "retry", "populate", "copy", "scope"])
+    kind = g.pick("kind", ["plain", "plain", "fail", "retry", "populate", "copy", "scope", "swarm-retry", "swarm-retry"])
     scen["kind"] = kind
     if kind == "fail":
         fam["p_fail"] = g.pick("p_fail", [0.15, 0.3])
@@ -334,6 +334,19 @@ def profile_C05(g, tier):
         fam["p_pop_shared"] = g.pick("ppop", [0.0, 0.5])
     elif kind == "scope":
         scen["params"]["pool_scope"] = g.pick("pool_scope", ["own shared", "own swarm shared"])
+    elif kind == "swarm-retry":
+        # several workers of one remote swarm (optionally plus others) sharing setup within the swarm only,
+        # with concurrent tries of the dependants of a removable state
+        scen["nets"] = g.pick("swnets", ["cluster1.net6 cluster1.net7", "cluster1.net6 cluster1.net8", "cluster1.net6 cluster1.net7 cluster1.net8",
+                                         "cluster1.net6 cluster1.net8 cluster2.net7", "net1 cluster1.net6 cluster1.net8"])
+        scen["params"]["pool_scope"] = g.pick("swscope", ["own swarm shared", "own swarm shared", "own swarm cluster shared"])
+        scen["params"]["max_tries"] = g.pick("swtries", ["2", "3"])
+        fam["p_fail"] = g.pick("swfail", [0.0, 0.2, 0.4])
+        fam["statuses"] = ["FAIL", "ERROR"]
+        if scen.get("generated") is None:
+            scen["tests"] = g.pick("swsel", ["leaves..tutorial_get..explicit_noop", "leaves..tutorial_gui",
+                                             "leaves..tutorial_get..explicit_noop,leaves..tutorial_get..implicit_both",
+                                             "leaves..tutorial_gui,leaves..tutorial_get..explicit_noop"])
     return scen
 
 
